@@ -74,21 +74,6 @@ theorem EnvOk.cons {env : Env} (h : EnvOk env) {x : String} (hx : reserved x = f
 
 theorem EnvOk.nil : EnvOk [] := ⟨fun _ => rfl, rfl⟩
 
-/-- the effect of one chunk at source level: new environment, new output, value left on the stack (if any) -/
-def chunk (env : Env) (out : List (List Char)) : Stmt → Except Exc (Env × List (List Char) × Option Val)
-  | .defv x e =>
-    match evalW env e with
-    | .ok (v, _) => .ok ((x, v) :: env, out, none)
-    | .error ex => .error ex
-  | .print args =>
-    match evalArgsW env args with
-    | .ok (vs, _) => .ok (env, joinSp (vs.map showVal) :: out, some .none)
-    | .error ex => .error ex
-  | .expr e =>
-    match evalW env (stripWrap e) with
-    | .ok (v, _) => .ok (env, out, some v)
-    | .error ex => .error ex
-
 theorem execW_clean_irrel : ∀ (ss : List Stmt) (env : Env) (out : List (List Char)) (c1 c2 : Bool),
     (execW ss env out c1).1 = (execW ss env out c2).1
   | [], _, _, _, _ => rfl
